@@ -207,20 +207,34 @@ def check_counter(chk, pm):
         raise Unrecognised('C07.N', f'label counter not identified (candidates {sorted(counters)})', pm.mod.rel)
     c = counters.pop()
     inits = [s for s in pm.prologue if isinstance(s, ast.Assign) and norm(s.targets[0]) == c]
+    # a counter object (itertools.count()) created once before the loop, from which the number is drawn with next()
+    gens = {norm(s.targets[0]) for s in pm.prologue if isinstance(s, ast.Assign) and isinstance(s.value, ast.Call) and norm(s.value.func) in ('itertools.count', 'count')
+            and all(isinstance(a, ast.Constant) and isinstance(a.value, int) and (i == 0 or a.value > 0) for i, a in enumerate(s.value.args))}
     if len(inits) == 1 and isinstance(inits[0].value, ast.Constant) and isinstance(inits[0].value.value, int):
         chk.ok('C07.N', f'label counter {c} initialised once before the line loop ({norm(inits[0])})')
-    else:
+    elif not inits and gens:
+        chk.ok('C07.N', f'label numbers are drawn from the counter object {sorted(gens)[0]} created once before the line loop (itertools.count)')
+    elif len(inits) > 1:
         chk.bad('C07.N', pm.mod, 'parse_script', f'{c} initialisation', 'the label counter must be initialised exactly once, before the line loop', node=func)
+    else:
+        chk.unrec('C07.N', f'initialisation of the label counter {c} not recognised', pm.mod.rel)
     for n in ast.walk(pm.loop):
         if isinstance(n, ast.Assign) and any(norm(t) == c for t in n.targets):
-            chk.bad('C07.N', pm.mod, 'parse_script', norm(n),
-                    f'the script-wide label counter {c} is re-assigned inside the line loop: construct instances opened before and after this point share (prefix, number) '
-                    f'pairs, so labels are redefined and jumps reach the wrong label', node=n)
+            if isinstance(n.value, ast.Call) and norm(n.value.func) == 'next' and len(n.value.args) == 1 and norm(n.value.args[0]) in gens:
+                chk.ok('C07.N', f'{norm(n)} (a fresh number from the monotone counter object)')
+            elif isinstance(n.value, ast.Constant) or (isinstance(n.value, ast.Name) and n.value.id != c):
+                chk.bad('C07.N', pm.mod, 'parse_script', norm(n),
+                        f'the script-wide label counter {c} is re-assigned inside the line loop: construct instances opened before and after this point share (prefix, number) '
+                        f'pairs, so labels are redefined and jumps reach the wrong label', node=n)
+            else:
+                chk.unrec('C07.N', f'assignment {norm(n)[:60]} of the label counter inside the line loop not recognised', pm.mod.rel)
         elif isinstance(n, ast.AugAssign) and norm(n.target) == c:
             if isinstance(n.op, ast.Add) and isinstance(n.value, ast.Constant) and isinstance(n.value.value, int) and n.value.value > 0:
                 chk.ok('C07.N', f'{norm(n)} (monotone)')
             else:
                 chk.bad('C07.N', pm.mod, 'parse_script', norm(n), 'the label counter must only grow (by a positive constant)', node=n)
+        elif isinstance(n, ast.Assign) and any(norm(t) in gens for t in n.targets):
+            chk.bad('C07.N', pm.mod, 'parse_script', norm(n), 'the counter object the label numbers are drawn from is replaced inside the line loop: numbers repeat', node=n)
     for s in pm.epilogue:
         for n in ast.walk(s):
             if isinstance(n, (ast.Assign, ast.AugAssign)) and c in norm(n.targets[0] if isinstance(n, ast.Assign) else n.target):
